@@ -908,3 +908,74 @@ func E7Clock(c *core.Ctx, r *core.Report) {
 	r.Count("E7.clock-sites", n)
 	r.Floor("E7.clock-sites", 3)
 }
+
+// E7PointRelease: a sweep point goes back to the pool only when its segment is finished.
+func E7PointRelease(c *core.Ctx, r *core.Report) {
+	r.Rule("E7.point-release", "the two end points of a sweep segment refer to each other (`other`) and are read until the segment's right end point has been handled, in the same call and — through prev links and the squares' event lists — while later squares are built. Every boPointPool.Put is therefore the release of a finished segment: it sits under `if !E.left` and releases E and E.other as a pair. Releasing a left end point on its own hands memory that is still in use to the pool, and a concurrent boolean operation on unrelated paths overwrites it")
+	p := c.MustPkg("")
+	info := p.TypesInfo
+	n := 0
+	for _, fd := range core.AllFuncDecls(p) {
+		if fd.Body == nil || !strings.HasSuffix(c.Fset.Position(fd.Pos()).Filename, "path_intersection.go") {
+			continue
+		}
+		fname := "canvas." + core.FuncName(fd)
+		ord := 0
+		var walk func(n ast.Node, guards []*ast.IfStmt)
+		walk = func(node ast.Node, guards []*ast.IfStmt) {
+			ast.Inspect(node, func(m ast.Node) bool {
+				switch x := m.(type) {
+				case *ast.IfStmt:
+					if x.Init != nil {
+						walk(x.Init, guards)
+					}
+					walk(x.Body, append(append([]*ast.IfStmt{}, guards...), x))
+					if x.Else != nil {
+						walk(x.Else, guards)
+					}
+					return false
+				case *ast.CallExpr:
+					se, ok := x.Fun.(*ast.SelectorExpr)
+					if !ok || se.Sel.Name != "Put" || len(x.Args) != 1 {
+						return true
+					}
+					if id, ok := core.Unparen(se.X).(*ast.Ident); !ok || id.Name != "boPointPool" || core.ObjOf(info, id) == nil || core.ObjOf(info, id).Parent() != p.Types.Scope() {
+						return true
+					}
+					n++
+					ord++
+					key := fmt.Sprintf("%s|point release #%d is the release of a finished segment", fname, ord)
+					arg := types.ExprString(x.Args[0])
+					base := strings.TrimSuffix(arg, ".other")
+					guarded := false
+					for _, g := range guards {
+						if ue, ok := core.Unparen(g.Cond).(*ast.UnaryExpr); ok && ue.Op == token.NOT && types.ExprString(ue.X) == base+".left" {
+							// the pair: the guard's body releases both base and base.other
+							both := map[string]bool{}
+							ast.Inspect(g.Body, func(k ast.Node) bool {
+								if c2, ok := k.(*ast.CallExpr); ok && len(c2.Args) == 1 {
+									if s2, ok := c2.Fun.(*ast.SelectorExpr); ok && s2.Sel.Name == "Put" {
+										both[types.ExprString(c2.Args[0])] = true
+									}
+								}
+								return true
+							})
+							if both[base] && both[base+".other"] {
+								guarded = true
+							}
+						}
+					}
+					if guarded {
+						r.OK("E7.point-release", key, c.Pos(x.Pos()), "")
+					} else {
+						r.Fail("E7.point-release", key, c.Pos(x.Pos()), fmt.Sprintf("`%s` is not the paired release under `if !%s.left`: a sweep point may be returned to the pool while its segment is still in use by this call", c.Src(x), base))
+					}
+				}
+				return true
+			})
+		}
+		walk(fd.Body, nil)
+	}
+	r.Count("E7.point-releases", n)
+	r.Floor("E7.point-releases", 4)
+}
